@@ -23,7 +23,7 @@ struct HistoryCase {
     calls: Vec<(String, QuerySrc, Opts, bool /* touches a failing file */)>,
     threads: usize,
     /// Some(sub-directory): the process runs with that working directory and the calls use
-    /// relative spellings (`x`, `./x`, `../d2/x`, `../d1/../d2/x`)
+    /// relative spellings (`x`, `./x`, `../d2/x`, `../d1/../d2/x`, `ln/../x` through a symbolic link)
     relative_from: Option<String>,
 }
 
@@ -98,6 +98,14 @@ fn gen_history(tape: &[u8], allow_failing: bool, stats: &mut GenStats) -> Option
     // seen from the working directory d1, `d2/query.graphql` and `../d2/query.graphql` are different files
     files.push(("d1/d2/query.graphql".into(), Some(a.case.document.clone())));
     files.push((format!("d1/d2/schema.{}", ext_b), Some(a.case.schema_text.clone())));
+    // `d1/ln` is a symbolic link to `../d4/sub`: `d1/ln/../query.graphql` is `d4/query.graphql` (document B),
+    // not `d1/query.graphql` (document A) - a cache key that folds `..` lexically confuses the two
+    files.push(("d4/sub/query.graphql".into(), Some(a.case.document.clone())));
+    files.push(("d4/query.graphql".into(), Some(b.case.document.clone())));
+    files.push(("d1/ln".into(), Some(format!("{}../d4/sub", SYMLINK_MARK))));
+    if ext_a == ext_b {
+        files.push((format!("d4/schema.{}", ext_b), Some(b.case.schema_text.clone())));
+    }
     let mut good_pairs: Vec<(String, String)> = vec![
         (format!("d1/schema.{}", ext_a), "d1/query.graphql".into()),
         (format!("d2/copy_of_schema.{}", ext_a), "d3/query.graphql".into()),
@@ -109,7 +117,10 @@ fn gen_history(tape: &[u8], allow_failing: bool, stats: &mut GenStats) -> Option
     ];
     if ext_a == ext_b {
         good_pairs.push((format!("d1/d2/schema.{}", ext_b), "d1/d2/query.graphql".into()));
+        good_pairs.push((format!("d1/ln/../schema.{}", ext_b), "d2/query.graphql".into()));
     }
+    good_pairs.push((format!("d2/schema.{}", ext_b), "d1/ln/../query.graphql".into()));
+    good_pairs.push((format!("d2/schema.{}", ext_b), "d1/ln/../query.graphql".into()));
     let mut bad_schema: Vec<String> = Vec::new();
     let mut bad_query: Vec<String> = Vec::new();
     if allow_failing {
@@ -275,13 +286,20 @@ fn gen_state_history(tape: &[u8]) -> HistoryCase {
     HistoryCase { tape: tape.to_vec(), files: Files { files }, calls, threads, relative_from: None }
 }
 
+/// A file entry whose content starts with this mark is a symbolic link to the rest of the content.
+const SYMLINK_MARK: &str = "@@symlink-to:";
+
 fn materialise(dir: &Path, files: &Files) {
     let _ = std::fs::remove_dir_all(dir);
     for (p, c) in &files.files {
         let full = dir.join(p);
         std::fs::create_dir_all(full.parent().unwrap()).unwrap();
         if let Some(c) = c {
-            std::fs::write(full, c).unwrap();
+            if let Some(target) = c.strip_prefix(SYMLINK_MARK) {
+                std::os::unix::fs::symlink(target, &full).unwrap();
+            } else {
+                std::fs::write(full, c).unwrap();
+            }
         }
     }
 }
@@ -405,7 +423,7 @@ fn from_replay(v: &Value) -> Option<HistoryCase> {
 }
 
 pub fn run(report: &mut Report, replay: Option<&Value>) {
-    report.rule = "a directory tree of schema / query files (same content under two paths, different content under the same base name in two directories; probe family: missing path, unparsable SDL / JSON / query, unsupported extension, documents that bind but fail a later validation) (plus a fixed small schema with documents rejected after the validator walked through fragment spreads alternating with valid documents that reach `__typename` only through spreads) and a history of 5-40 calls over them (generate_module_token_stream with a query path and ..._from_string, random options incl. the serde path), executed in one fresh process sequentially or partitioned over 2/4/8/16 threads released by a barrier. Oracle: every call's outcome (Ok(tokens) / Err(text) / Panic(message)) equals the outcome of the same call made alone in a fresh process (memoised per distinct call). Non-trivial: the history has a failing call, or >= 4 threads, or >= 10 calls; distinct by (history, call index).".into();
+    report.rule = "a directory tree of schema / query files (same content under two paths, different content under the same base name in two directories; a directory reached through a symbolic link so that `ln/../x` and `x` are different files; probe family: missing path, unparsable SDL / JSON / query, unsupported extension, documents that bind but fail a later validation) (plus a fixed small schema with documents rejected after the validator walked through fragment spreads alternating with valid documents that reach `__typename` only through spreads) and a history of 5-40 calls over them (generate_module_token_stream with a query path and ..._from_string, random options incl. the serde path), executed in one fresh process sequentially or partitioned over 2/4/8/16 threads released by a barrier. Oracle: every call's outcome (Ok(tokens) / Err(text) / Panic(message)) equals the outcome of the same call made alone in a fresh process (memoised per distinct call). Non-trivial: the history has a failing call, or >= 4 threads, or >= 10 calls; distinct by (history, call index).".into();
     report.assumptions = vec![
         "thread schedules are sampled by stress (barrier release), not enumerated; with the one-lock design outcomes are functions of file contents, so a data race that leaves outputs unchanged would not be seen".into(),
         "files are not modified between calls (outside the quantifier)".into(),
